@@ -296,6 +296,36 @@ fn build_and_serialize(rules: &[RuleRef], cfg: Cfg) -> Result<Vec<Vec<u8>>, Stri
     }
 }
 
+/// The same buffers as `build_and_serialize`, with every tag set reached by another route:
+/// route 1 enables the tags of the set one call at a time (starting from no tag), route 2 enables
+/// every tag the list uses and disables the others one call at a time. One fresh engine per set.
+fn build_and_serialize_by_route(rules: &[RuleRef], cfg: Cfg, route: u8) -> Result<Vec<Vec<u8>>, String> {
+    let r = catch(|| -> Result<Vec<Vec<u8>>, String> {
+        let all = rule_tags(rules);
+        let mut out = vec![];
+        for tags in subsets_of(&all) {
+            let (fs, _) = filter_set(rules, cfg.debug);
+            let mut e = Engine::from_filter_set(fs, cfg.optimize);
+            if route == 1 {
+                for t in &tags {
+                    e.enable_tags(&[*t]);
+                }
+            } else {
+                e.use_tags(&all);
+                for t in all.iter().filter(|t| !tags.contains(t)) {
+                    e.disable_tags(&[*t]);
+                }
+            }
+            out.push(e.serialize_raw().map_err(|e| format!("serialize error {:?}", e))?);
+        }
+        Ok(out)
+    });
+    match r {
+        Ok(x) => x,
+        Err(loc) => Err(format!("panic at {}", loc)),
+    }
+}
+
 fn fnv(b: &[u8]) -> u64 {
     let mut h: u64 = 0xcbf29ce484222325;
     for &x in b {
@@ -525,6 +555,19 @@ fn check_case(universe: &str, index: u64, rules: &[RuleRef], cfg_index: usize, w
                 compare(l, "same-thread", &b);
             }
             Err(msg) => fail(l, "c09.build-or-serialize-failed".into(), format!("list {:?}: {}", names(), msg), json!(null)),
+        }
+    }
+    // --- the same tag sets reached by other routes (lists that use tags)
+    if tag_sets.len() > 1 {
+        for (route, name) in [(1u8, "tags-enabled-one-at-a-time"), (2u8, "all-tags-then-disabled-one-at-a-time")] {
+            match build_and_serialize_by_route(rules, cfg, route) {
+                Ok(b) => {
+                    l.states += b.len() as u64;
+                    l.transitions += b.len() as u64;
+                    compare(l, name, &b);
+                }
+                Err(msg) => fail(l, "c09.build-or-serialize-failed".into(), format!("list {:?} ({}): {}", names(), name, msg), json!(null)),
+            }
         }
     }
     // --- one draw in a freshly spawned thread (new random key pair)
